@@ -321,3 +321,21 @@ Proof.
   unfold pop_or_wait. destruct p as [d q sz]; simpl in *. destruct q as [|r q]; [contradiction|].
   exists r. simpl. auto.
 Qed.
+
+(* a give-back whose tag is not the current discriminant leaves the queue untouched, whatever the
+   interleaving that led there; one whose tag is current and finds room appends exactly its resource *)
+Lemma give_back_outcome s t ci ch w r tag c :
+  nth_error (ths s) t = Some (GBPush r tag c) ->
+  let s' := fst (gstep s (Step t ci ch w)) in
+  (tag <> disc (pl s) -> queue (pl s') = queue (pl s)) /\
+  (tag = disc (pl s) -> qlen s < size (pl s) -> queue (pl s') = queue (pl s) ++ [r]) /\
+  (size (pl s) <= qlen s -> queue (pl s') = queue (pl s)).
+Proof.
+  destruct s as [p f l]. cbn [pl ths]. intros En. cbn [gstep pl fresh_id ths]. rewrite En. cbn [step].
+  destruct (after c f) as [s' f']. unfold is_full, qlen. cbn [pl].
+  destruct (size p <=? N.of_nat (length (queue p))) eqn:Ef.
+  - apply N.leb_le in Ef. simpl. repeat split; auto. intros _ H. lia.
+  - apply N.leb_gt in Ef. destruct (disc p =? tag) eqn:Ed; simpl.
+    + apply N.eqb_eq in Ed. repeat split; auto; intros; try congruence; lia.
+    + apply N.eqb_neq in Ed. repeat split; auto; intros; try congruence; lia.
+Qed.
